@@ -249,7 +249,10 @@ func runC18(c *h.Ctx) {
 	}
 	// name key id: SHA-256 of the serialized name key, for every suite the decoder admits
 	client := type3.NewRateLimitedClientFromSecret(rnd(c, 48))
-	type suite struct{ kem, kdf, aead uint16; pkLen int }
+	type suite struct {
+		kem, kdf, aead uint16
+		pkLen          int
+	}
 	var suites []suite
 	for _, kdf := range []uint16{1, 2, 3} {
 		for _, aead := range []uint16{1, 2, 3} {
